@@ -17,7 +17,7 @@ func init() {
 		ID: "C05", Fn: c05, Race: false,
 		Rule:        "one evaluation = one search observed through our own UciDriver (exactly what a GUI is sent) and LastSearchResult: best move legal in the root (refchess), ponder move legal after it, every iteration PV and the final PV a playable legal sequence starting with the best move, caller's position unchanged, search returns; workload = positions incl. in-check / single-move / long-history / repetition-loaded / 50-move-edge roots x limit modes (depth, nodes, movetime, clock, infinite+stop, ponder+stop, ponder+ponderhit) x random subsets of all search switches x stop moments (node limit swept 1..N, asynchronous StopSearch after seeded delays) x warm tables (chains of searches on one Search without NewGame, 1 MB hash); distinct = distinct (root identity, limit, configuration mask, chain position)",
 		Assumptions: []string{"refchess legality", "non-termination is judged by the per-shard watchdog and goroutine dump, see DESIGN 1.2"},
-		Required:    []string{"searches", "mode_depth", "mode_nodes", "mode_movetime", "mode_clock", "mode_infinite_stop", "mode_ponder_stop", "mode_ponder_hit", "pv_lines_validated", "pv_len_ge_3", "ponder_moves_validated", "warm_table_searches", "stopped_mid_iteration", "tt_cut_searches", "roots_in_check", "roots_single_move", "roots_with_history", "node_sweep_searches", "roots_drawn_by_history", "roots_fifty_move_edge", "roots_heavy", "roots_contested_square", "roots_castling_refused", "earlier_results_rechecked"},
+		Required:    []string{"searches", "mode_depth", "mode_nodes", "mode_movetime", "mode_clock", "mode_infinite_stop", "mode_ponder_stop", "mode_ponder_hit", "pv_lines_validated", "pv_len_ge_3", "ponder_moves_validated", "warm_table_searches", "stopped_mid_iteration", "tt_cut_searches", "roots_in_check", "roots_single_move", "roots_with_history", "node_sweep_searches", "roots_drawn_by_history", "roots_fifty_move_edge", "roots_heavy", "roots_contested_square", "roots_castling_refused", "earlier_results_rechecked", "roots_more_than_64_moves"},
 		MinEvals:    1000,
 		TimeoutQ:    20 * 60e9,
 		TimeoutT:    120 * 60e9,
@@ -252,6 +252,9 @@ func c05(c *Ctx) {
 			if root.kind == "heavy" {
 				lim.Depth = 3 + r.Intn(6)
 			}
+			if root.kind == "many-moves" {
+				lim.Depth = 7 + r.Intn(2)
+			}
 		case "nodes":
 			lim = search.Limits{Nodes: nodeLimit, Depth: 8}
 		case "movetime":
@@ -410,6 +413,44 @@ func c05(c *Ctx) {
 		}
 	}
 	// node-limit sweep: every stop moment of small searches
+	// roots with more than 64 legal moves searched deep under the default configuration and
+	// with single move-count based heuristics switched off (tables indexed by the number of
+	// moves searched are sized for ordinary positions)
+	nMany := c.Size(48, 1200)
+	for k := 0; k < nMany; k++ {
+		if !c.Mine(k) {
+			continue
+		}
+		r := SubRng(c.Seed, "c05/many", k)
+		var hb *rc.Board
+		for try := 0; try < 400; try++ {
+			hb = heavyPosition(r)
+			if len(hb.Legal()) > 66 {
+				break
+			}
+		}
+		if len(hb.Legal()) <= 66 {
+			continue
+		}
+		restoreSearchCfg()
+		sc := &config.Settings.Search
+		cfgDesc := "default"
+		switch k % 4 {
+		case 1:
+			sc.UseLmp = false
+			cfgDesc = "off:Lmp"
+		case 2:
+			sc.UseLmp, sc.UseFP = false, false
+			cfgDesc = "off:Lmp,FP"
+		case 3:
+			sc.UseLmp, sc.UseLmr = false, r.Chance(0.5)
+			sc.UseNullMove, sc.UseRFP, sc.UseRazoring = r.Chance(0.5), r.Chance(0.5), r.Chance(0.5)
+			cfgDesc = fmt.Sprintf("off:Lmp lmr=%v null=%v rfp=%v razor=%v", sc.UseLmr, sc.UseNullMove, sc.UseRFP, sc.UseRazoring)
+		}
+		s.NewGame()
+		rep.Inc("roots_more_than_64_moves")
+		oneSearch(c05root{start: hb, b: hb, kind: "many-moves"}, r, "depth", cfgDesc, 0, 0)
+	}
 	nSweep := c.Size(24, 400)
 	for i := 0; i < nSweep; i++ {
 		if !c.Mine(i) {
